@@ -52,9 +52,13 @@ def handlers(inner):
     hs = [L([S("probe"), Q(S("H")), S("c"), S("r")], Q(S("val"))),
           L([S("capture")], [S("rethrow")]),
           S("unbound-handler"),
-          5]
+          5,
+          # handler EXPRESSIONS that run code before a handler exists: no condition is being handled yet by this
+          # handler-bind while they are evaluated (capture shows what is; rethrow belongs to an enclosing handler or fails)
+          [S("progn"), [S("capture")], L([S("probe"), Q(S("H5")), S("c"), S("r")], [S("capture")], Q(S("val5")))],
+          [S("progn"), [S("capture")], [S("rethrow")]]]
     if inner is not None:
-        hs.append(L([S("probe"), Q(S("H2")), S("c")], inner, [S("probe"), Q(S("after-inner"))]))
+        hs.append(L([S("probe"), Q(S("H2")), S("c")], inner, [S("probe"), Q(S("after-inner"))]))   # (always the LAST element)
     return hs
 
 
@@ -84,8 +88,8 @@ def exprs(depth, rnd=None, cap=None):
                 nxt.append([S("handler-bind"), [[S("a"), L2(e, [S("probe"), Q(S("H4")), S("c"), S("r")], Q(S("v4")))]], raise_, [S("probe"), Q(S("after-h4"))]])
             # an error raised inside a handler body (one level of the family inside the handler)
             for inner in (LEAVES[0], LEAVES[3], LEAVES[4]):
-                nxt.append([S("handler-bind"), [[S("condition"), handlers(inner)[4]]], e, [S("probe"), Q(S("after-h"))]])
-                nxt.append([S("handler-bind"), [[S("internal-panic"), handlers(inner)[4]], [S("a"), handlers(None)[1]]], e])
+                nxt.append([S("handler-bind"), [[S("condition"), handlers(inner)[-1]]], e, [S("probe"), Q(S("after-h"))]])
+                nxt.append([S("handler-bind"), [[S("internal-panic"), handlers(inner)[-1]], [S("a"), handlers(None)[1]]], e])
         level = nxt
     return level
 
